@@ -120,7 +120,7 @@ def hbound (env : Env) (s : State E) : Nat := if !s.pending then 0 else core env
 theorem handleTurn_cases (env : Env) (s : State E) :
     (changedOf env s = true ∧ handleTurn env s = nextState env s (s.now + env.lat) true (s.writes + 1)) ∨
     (∃ d, changedOf env s = false ∧ minDelay (pass env s).delays = some d ∧
-      handleTurn env s = nextState env s (s.now + (if d > env.cap then env.cap else d) + env.lat) true (s.writes + cp env + 1)) ∨
+      handleTurn env s = nextState env s (s.now + (if d > env.cap then env.cap else d) + (latS env)) true (s.writes + cp env + 1)) ∨
     (changedOf env s = false ∧ minDelay (pass env s).delays = none ∧
       handleTurn env s = nextState env s s.now false (s.writes + cp env)) := by
   by_cases hch : changedOf env s = true
@@ -263,6 +263,14 @@ theorem int_delay_nonneg (now dd d : Int) (h1 : now < dd) (h2 : d = dd - now) : 
 theorem int_cap_lt (cap d dd now : Int) (h1 : cap < d) (h2 : d = dd - now) : cap < dd - now := by omega
 theorem int_wake (dd now d lat : Int) (h1 : d = dd - now) (h2 : 0 ≤ lat) : ¬ (dd > now + d + lat) := by omega
 
+theorem latS_nonneg (env : Env) (wf : WF env) : 0 ≤ latS env := by
+  unfold latS
+  have h1 := wf.lat
+  have h2 := wf.rtt
+  split
+  · exact Int.add_nonneg h2 h1
+  · simpa using h1
+
 theorem int_sleep_le (now d cap lat : Int) (hd : 0 ≤ d) (hcap : 0 < cap) (hlat : 0 ≤ lat) :
     now ≤ now + (if d > cap then cap else d) + lat := by
   split <;> omega
@@ -380,9 +388,9 @@ theorem handle_decreases (env : Env) (wf : WF env) (hfin : AllFinal env) (s : St
         unfold pass at hmem
         rw [cycle_main _ _ _ _ _ hr hne] at hmem
         exact delays_nonneg _ _ _ d hmem
-      have hle := int_sleep_le s.now d env.cap env.lat hd wf.cap wf.lat
+      have hle := int_sleep_le s.now d env.cap (latS env) hd wf.cap (latS_nonneg env wf)
       obtain ⟨k1, k2⟩ := key _ _ hle
-      have := hAle (s.now + (if d > env.cap then env.cap else d) + env.lat)
+      have := hAle (s.now + (if d > env.cap then env.cap else d) + (latS env))
       rw [k1, hb]; omega
     · rw [h, hb, hbound_not_pending _ _ rfl]; omega
   have hna : ∀ i ∈ (cfgOf env s).selected, awakeP s.P s.now i = false := by
@@ -405,9 +413,9 @@ theorem handle_decreases (env : Env) (wf : WF env) (hfin : AllFinal env) (s : St
         unfold pass at hmem
         rw [cycle_main _ _ _ _ _ hr hne] at hmem
         exact delays_nonneg _ _ _ d hmem
-      have hle := int_sleep_le s.now d env.cap env.lat hd wf.cap wf.lat
+      have hle := int_sleep_le s.now d env.cap (latS env) hd wf.cap (latS_nonneg env wf)
       obtain ⟨k1, k2⟩ := key _ _ hle
-      have := hAle (s.now + (if d > env.cap then env.cap else d) + env.lat)
+      have := hAle (s.now + (if d > env.cap then env.cap else d) + (latS env))
       rw [k1, hb, hA]; simp only [hex, if_true]; omega
     · rw [h, hb, hbound_not_pending _ _ rfl]; omega
   -- nobody is due, nothing to re-purpose: the pass leaves the object alone; sleep, then touch
@@ -428,37 +436,37 @@ theorem handle_decreases (env : Env) (wf : WF env) (hfin : AllFinal env) (s : St
     · -- the delay exceeds the keepalive cap: one keepalive round is consumed
       rw [if_pos hcap] at h
       rw [h]
-      have hle : s.now ≤ s.now + env.cap + env.lat := int_le_add2 s.now env.cap env.lat wf.cap wf.lat
+      have hle : s.now ≤ s.now + env.cap + (latS env) := int_le_add2 s.now env.cap (latS env) wf.cap (latS_nonneg env wf)
       obtain ⟨k1, k2⟩ := key _ _ hle
-      have hstrict : Cv env.cap (env.sel (causeOf s)) (pass env s).P' (s.now + env.cap + env.lat)
+      have hstrict : Cv env.cap (env.sel (causeOf s)) (pass env s).P' (s.now + env.cap + (latS env))
           < Cv env.cap (env.sel (causeOf s)) s.P s.now := by
         unfold Cv
         apply sum_map_lt _ _ _ _ i hi
         · unfold slack
           rw [hid i, hP]
           simp only [hrf, Bool.false_eq_true, if_false, hrd]
-          exact int_slack_lt dd s.now env.cap env.lat wf.cap wf.lat (int_cap_lt env.cap d dd s.now hcap hdeq)
+          exact int_slack_lt dd s.now env.cap (latS env) wf.cap (latS_nonneg env wf) (int_cap_lt env.cap d dd s.now hcap hdeq)
         · intro k hk
           exact open_slack (cfgOf env s) s.P s.now s.now env.exec hsub hu hr hne hopen hfin env.cap _ hle k hk
-      have hA' := hAle (s.now + env.cap + env.lat)
+      have hA' := hAle (s.now + env.cap + (latS env))
       rw [k1, hb, hA]
       simp only [hex', Bool.false_eq_true, if_false]
       omega
     · -- the whole delay is slept: that handler is due at the next event
       rw [if_neg hcap] at h
       rw [h]
-      have hle : s.now ≤ s.now + d + env.lat := int_le_add3 s.now d env.lat hd wf.lat
+      have hle : s.now ≤ s.now + d + (latS env) := int_le_add3 s.now d (latS env) hd (latS_nonneg env wf)
       obtain ⟨k1, k2⟩ := key _ _ hle
-      have hAw : Av (env.sel (causeOf s)) (pass env s).P' (s.now + d + env.lat) = 0 := by
+      have hAw : Av (env.sel (causeOf s)) (pass env s).P' (s.now + d + (latS env)) = 0 := by
         unfold Av
-        have : (env.sel (causeOf s)).any (awakeP (pass env s).P' (s.now + d + env.lat)) = true := by
+        have : (env.sel (causeOf s)).any (awakeP (pass env s).P' (s.now + d + (latS env))) = true := by
           rw [List.any_eq_true]
           refine ⟨i, hi, ?_⟩
           unfold awakeP
           rw [hid i, hP]
           simp only [Rec.awakened, Rec.sleeping, hrf, hrd, Bool.not_false, Bool.true_and, Bool.not_eq_true',
             decide_eq_false_iff_not]
-          exact int_wake dd s.now d env.lat hdeq wf.lat
+          exact int_wake dd s.now d (latS env) hdeq (latS_nonneg env wf)
         simp [this]
       rw [k1, hb, hA, hAw]
       simp only [hex', Bool.false_eq_true, if_false]
